@@ -322,7 +322,10 @@ extern "C" int LLVMFuzzerTestOneInput(const uint8_t* data, size_t size) {
   g.execs++;
   if (size < 4) return 0;
   FuzzedDataProvider fdp(data, size);
-  int ek = fdp.ConsumeIntegralInRange<int>(0, 2);
+  // one byte: emitter kind (v % 3, as in the first version so that saved inputs keep their meaning) and whether a logger is attached (v / 3)
+  int ekl = fdp.ConsumeIntegralInRange<int>(0, 5);
+  int ek = ekl % 3;
+  const bool with_logger = ekl >= 3;
   int hk = fdp.ConsumeIntegralInRange<int>(0, 2);
   bool strict = fdp.ConsumeBool();     // kValidateAssembler: the validator is a stub on AArch64, the path around it differs
   std::string script = std::string(ek == 0 ? "asm" : ek == 1 ? "builder" : "compiler") + (strict ? "[VA]" : "") + "/a64" + (hk == 0 ? "/nohandler" : hk == 1 ? "/recording" : "/throwing") + ": ";
@@ -335,6 +338,13 @@ extern "C" int LLVMFuzzerTestOneInput(const uint8_t* data, size_t size) {
   if (strict) e->add_diagnostic_options(DiagnosticOptions::kValidateAssembler);
   RecHandler rh; rh.throwing = hk == 2;
   if (hk != 0) e->set_error_handler(&rh);
+  // a logger makes every accepted instruction (perturbed but accepted operands) go through the AArch64 formatter, machine-code column included
+  StringLogger logger;
+  if (with_logger) {
+    logger.set_flags(FormatFlags::kMachineCode | FormatFlags::kHexImms | FormatFlags::kHexOffsets | FormatFlags::kExplainImms | FormatFlags::kRegCasts | FormatFlags::kRegType);
+    e->set_logger(&logger);
+    script += "(logger) ";
+  }
 
   // shadow Assembler of a Builder / Compiler (own CodeHolder): every accepted call is repeated on it
   const bool shadow_on = ek != 0;
@@ -358,6 +368,7 @@ extern "C" int LLVMFuzzerTestOneInput(const uint8_t* data, size_t size) {
     bool is_inst = false, must_succeed = false, names_label = false, is_bind = false;
     std::string txt;
     size_t off0 = ek == 0 ? as.offset() : 0;
+    const size_t log0 = logger.data_size();
     std::function<Error(BaseEmitter*, CodeHolder&)> call;
     uint32_t saw = 0, a_id = 0;
     try {
@@ -542,6 +553,10 @@ extern "C" int LLVMFuzzerTestOneInput(const uint8_t* data, size_t size) {
         if (saw & kSawPerturbed) g.classes["accepted_perturbed_instruction"]++;
         if (e->inst_options() != InstOptions::kNone || e->extra_reg().is_reg() || e->inline_comment() != nullptr)
           oracle_fail("one-shot-state-not-cleared-after-success", "inst_options/extra_reg/inline_comment still set after an instruction was emitted", script);
+        if (ek == 0 && with_logger) {
+          if (logger.data_size() <= log0) oracle_fail("accepted-instruction-not-logged", "an accepted instruction left no line in the attached logger", script);
+          g.classes["accepted_instruction_logged"]++;
+        }
         if (ek == 0) {
           size_t n = as.offset() - off0;
           const uint8_t* p = as.buffer_data() + off0;
